@@ -36,7 +36,7 @@ func (c *Conn) LocalAddr() net.Addr {
 		return c.Conn.LocalAddr()
 	}
 
-	if c.headerErr != nil || c.header.IsLocal {
+	if c.headerErr != nil || c.header.IsLocal || c.header.Destination == nil {
 		return c.Conn.LocalAddr()
 	}
 
@@ -48,7 +48,7 @@ func (c *Conn) RemoteAddr() net.Addr {
 		return c.Conn.RemoteAddr()
 	}
 
-	if c.headerErr != nil || c.header.IsLocal {
+	if c.headerErr != nil || c.header.IsLocal || c.header.Source == nil {
 		return c.Conn.RemoteAddr()
 	}
 
